@@ -98,11 +98,24 @@ def make_handler(lvl, takes_ra=False):
     return H()
 
 
+def embed_elsewhere(app, W, cache):
+    """the same application object is also mounted into an unrelated parent (every attribute that re-binding merges is
+    set and different from anything in the chain); per the specification this has no effect on the chain"""
+    from clastic import Application, SubApplication
+    other = Application([SubApplication('/elsewhere', app, rebind_render=True, inherit_slashes=True)],
+                        resources={'ra': ResObj('ra', 77), 'rb': ResObj('rb', 77)},
+                        middlewares=[make_mw(cache, W, 'A', '77.0.1'), make_mw(cache, W, 'B', '77.0.2')],
+                        render_factory=make_factory(77), error_handler=make_handler(77), slash_mode='rewrite')
+    return other
+
+
 def build_nested(rec, W):
     from clastic import Application, Route, SubApplication
     cache = {}
     depth = rec['depth']
     app = None
+    reuse = rec.get('reuse') or ['none'] * depth
+    keep = []
     for k in range(depth, 0, -1):
         a = rec['attrs'][k - 1]
         own = []
@@ -121,11 +134,17 @@ def build_nested(rec, W):
             ptxt = PREFIX_TEXT[a['prefix']]
             if a['prefix'] != 'root' and (k + len(own)) % 2 == 0:
                 ptxt += '/'      # with and without trailing slash: SubApplication strips it
+            if reuse[k] == 'before':        # reuse[k] (0-based) is the level k+1 application being embedded here
+                keep.append(embed_elsewhere(app, W, cache))
             entries.insert(at, SubApplication(ptxt, app, rebind_render=a['rebind'], inherit_slashes=a['inherit']))
         app_mws = [make_mw(cache, W, t, '%d.0.%d' % (k, i)) for i, t in enumerate(a['mws'], 1)]
         app = Application(entries, resources=dict((nm, ResObj(nm, k)) for nm in a['res']), middlewares=app_mws,
                           render_factory=make_factory(k) if a['fact'] else None, error_handler=make_handler(k, 'ra' in a['res']),
                           slash_mode=a['slash'])
+        if k < depth and reuse[k] == 'after':
+            keep.append(embed_elsewhere(inner_app, W, cache))
+        inner_app = app
+    W.keep = keep
     return app
 
 
@@ -290,7 +309,8 @@ def check(run):
     quick = run.tier == 'quick'
     E = spec('Embed.tla')
     run.rule = ('application chains (depth <= 3, <= 2 own routes per level, attributes: resources, middlewares, slash mode, render '
-                'factory, prefix, inherit_slashes, rebind_render; routes: pattern, render kind, route middlewares) generated by '
+                'factory, prefix, inherit_slashes, rebind_render, the same application object also mounted into an unrelated parent '
+                'before/after; routes: pattern, render kind, route middlewares) generated by '
                 'TLC with their flattening; non-trivial = depth >= 2 and at least one embedded route')
     run.assumptions = ['a resource name defined by two inner levels but not by the serving application is not compared',
                        'all middleware types are unique + reorderable (non-unique types are C03)']
@@ -308,7 +328,7 @@ def check(run):
     seen = set()
     n = 0
     for rec in e.emits:
-        key = json.dumps([rec['depth'], rec['attrs'][:rec['depth']], rec['routes'][:rec['depth']], rec['subAt']], sort_keys=True)
+        key = json.dumps([rec['depth'], rec['attrs'][:rec['depth']], rec['routes'][:rec['depth']], rec['subAt'], rec.get('reuse')], sort_keys=True)
         if key in seen or not rec['table']:
             continue
         seen.add(key)
